@@ -227,6 +227,22 @@ def worker(args):
             rec.ev()
             c = rng.choice(lab.configs)
             check_get(rec, lab, conf, store, c, s, rng.choice(attr_sets), rng.choice(list(ENC)), case)
+        # a Sid whose name is longer than any file name can be (it cannot exist): reading it gives its 'sid' record, like any other
+        from spil import GetFromPaths as _G, GetFromAll as _GA, Sid as _S
+        for e0 in ents[:1]:
+            long_sid = "/".join(e0.split("/")[:3] + ["y" * 300])
+            if _S(long_sid):
+                rec.ev()
+                rec.count("reads_of_a_sid_with_an_impossible_name")
+                for who, fn in (("GetFromPaths.get_data", lambda: dict(_G().get_data(long_sid))), ("GetFromAll.get_data", lambda: dict(_GA().get_data(long_sid))),
+                                ("GetFromPaths.get", lambda: [dict(r) for r in _G().get(long_sid)])):
+                    try:
+                        got = fn()
+                    except Exception as ex:
+                        rec.violation("read_of_impossible_name_raised", dict(case, sid="<3 segments>/" + "y*300", call=who), repr(ex))
+                        continue
+                    if got not in ({"sid": long_sid}, [], [{"sid": long_sid}], {}):
+                        rec.violation("read_of_impossible_name_differs", dict(case, call=who), repr(got)[:200])
         # searches on types configured without getter
         for s in ("*", "*/*", "*/*/*"):
             rec.ev()
